@@ -2783,6 +2783,14 @@ ws_str_recv(void *arg, nng_aio *aio)
 	if (nni_list_first(&ws->recvq) == aio) {
 		ws_read_finish(ws);
 	}
+	if (ws->closed && nni_aio_list_active(aio)) {
+		// The connection ended while nobody was receiving: there
+		// will be no read completion that could ever fail this one.
+		nni_aio_list_remove(aio);
+		nni_mtx_unlock(&ws->mtx);
+		nni_aio_finish_error(aio, NNG_ECLOSED);
+		return;
+	}
 	ws_start_read(ws);
 
 	nni_mtx_unlock(&ws->mtx);
